@@ -259,6 +259,113 @@ func c08R2(r *Report, ch *ssa.Function) {
 		}
 	}
 	r.Check(seenCase[1] && seenCase[2], "R2", "ClientHandshake/both-cases", ch.Pos(), "both selection values are handled", "the client no longer handles both crypto_select values explicitly")
+	// the bytes that arrived glued to the server's reply are payload: they are decrypted exactly when RC4 was selected
+	{
+		var decrypted func(v ssa.Value, d int) (bool, bool) // (decrypted, known)
+		decrypted = func(v ssa.Value, d int) (bool, bool) {
+			if d > 8 || v == nil {
+				return false, false
+			}
+			switch x := v.(type) {
+			case *ssa.Call:
+				if h := x.Call.StaticCallee(); h != nil && h.Blocks != nil && relPkg(h) == "crypto" && !x.Call.IsInvoke() {
+					for ai := range x.Call.Args {
+						if ai < len(h.Params) && isByteSlice(h.Params[ai].Type()) && xorsParam(h, ai) {
+							return true, true
+						}
+						if ai < len(h.Params) && variadicElems(x.Call.Args[ai]) != nil && xorsParam(h, ai) {
+							return true, true
+						}
+					}
+				}
+				return false, true
+			case *ssa.Slice:
+				if al, ok := x.X.(*ssa.Alloc); ok {
+					return decrypted(al, d+1)
+				}
+				return decrypted(x.X, d+1)
+			case *ssa.MakeSlice, *ssa.Alloc:
+				// a fresh buffer: what was copied into it
+				res, known := false, false
+				var holders []ssa.Value
+				holders = append(holders, v)
+				if al, ok := v.(*ssa.Alloc); ok {
+					for _, ref := range *al.Referrers() {
+						if sl, ok := ref.(*ssa.Slice); ok {
+							holders = append(holders, sl)
+						}
+					}
+				}
+				for _, hv := range holders {
+					for _, ref := range *hv.Referrers() {
+						c, ok := ref.(*ssa.Call)
+						if !ok {
+							continue
+						}
+						if bi, okb := c.Call.Value.(*ssa.Builtin); okb && bi.Name() == "copy" && c.Call.Args[0] == hv {
+							res, known = decrypted(c.Call.Args[1], d+1)
+						}
+					}
+				}
+				return res, known
+			case *ssa.Phi:
+				first := true
+				var val bool
+				for _, e := range x.Edges {
+					b, k := decrypted(e, d+1)
+					if !k {
+						return false, false
+					}
+					if first {
+						val, first = b, false
+					} else if b != val {
+						return false, false
+					}
+				}
+				return val, !first
+			case *ssa.Extract, *ssa.Parameter:
+				return false, true // bytes as they came from the connection
+			}
+			return false, false
+		}
+		for _, ret := range returnsOf(ch) {
+			var k int64 = -1
+			for _, g := range guardsOf(ret.Block()) {
+				bo, ok := g.Cond.(*ssa.BinOp)
+				if !ok || bo.Op != token.EQL || !g.Pol {
+					continue
+				}
+				if c, okc := constInt(bo.Y); okc {
+					if cl, okl := stripIntConv(bo.X).(*ssa.Call); okl && calleeObj(cl) != nil && calleeObj(cl).Name() == "Uint32" {
+						k = c
+					}
+				}
+			}
+			if k != 1 && k != 2 {
+				continue
+			}
+			if len(ret.Results) < 3 || ne.At(ret.Results[len(ret.Results)-1], ret.Block()) == NonNil {
+				continue
+			}
+			var bufRes ssa.Value
+			for _, res := range ret.Results {
+				if isByteSlice(res.Type()) {
+					bufRes = res
+				}
+			}
+			if bufRes == nil {
+				continue
+			}
+			dec, known := decrypted(bufRes, 0)
+			key := fmt.Sprintf("ClientHandshake/surplus-decrypted-iff-rc4/select=%d", k)
+			if !known {
+				r.Info("R3", key, ret.Pos(), "the provenance of the returned surplus bytes is not understood")
+				continue
+			}
+			r.Check(dec == (k == 2), "R3", key, ret.Pos(), map[bool]string{true: "surplus bytes are decrypted when RC4 was selected", false: "surplus bytes are passed on as they are when plaintext was selected"}[k == 2],
+				map[bool]string{true: "with RC4 selected the bytes that arrived glued to the server's reply are returned without being decrypted", false: "with plaintext selected the bytes that arrived glued to the server's reply are run through the stream cipher: they reach the message layer garbled (only visible when the server's next bytes are coalesced with its reply)"}[k == 2])
+		}
+	}
 	r.Sentinel("R2", n, 4)
 }
 
